@@ -33,20 +33,47 @@ func New[T any](ctx context.Context, cap int) (<-chan T, chan<- T) {
 	mq := newq[T]()
 
 	go func() {
+		// the sender is allowed to close its side, it is the end of stream
+		closed := false
+
 		defer close(eg)
-		defer close(in)
+		defer func() {
+			if !closed {
+				close(in)
+			}
+		}()
+
+		// emits the backlog when no more input is accepted
+		flush := func() {
+			for mq.head != nil {
+				eg <- head(mq)
+				deq(mq)
+			}
+		}
 
 		for {
 			select {
 			case <-ctx.Done():
-				for mq.head != nil {
-					eg <- head(mq)
-					deq(mq)
+				// values accepted by the input buffer belong to the backlog
+				for accept := true; accept; {
+					select {
+					case x, ok := <-in:
+						if !ok {
+							closed, accept = true, false
+							break
+						}
+						enq(&x, mq)
+					default:
+						accept = false
+					}
 				}
+				flush()
 				return
 
 			case x, ok := <-in:
 				if !ok {
+					closed = true
+					flush()
 					return
 				}
 				enq(&x, mq)
